@@ -1493,6 +1493,13 @@ fn plan_lp(w: &World, knobs: &Knobs, actor: &mut Actor, l: &Ledger) -> Vec<(Tx, 
                 if let Some(pool) = l.data(&pi.keys.whirlpool).and_then(decode::pool) {
                     let (lo, hi) = if rng.chance(1, 8) { crate::gen3::pick_any_range(rng, l, &pi.keys.whirlpool, &pool) } else { pick_range(rng, l, &pi.keys.whirlpool, &pool) };
                     let (lo, hi) = (lo.clamp(MIN_TICK - 70_000, MAX_TICK + 70_000), hi.clamp(MIN_TICK - 70_000, MAX_TICK + 70_000));
+                    // now and then the very same range (must be refused) or a range that keeps one of the two bounds (legal)
+                    let (lo, hi) = match rng.below(12) {
+                        0 => (p.lower, p.upper),
+                        1 | 2 if p.lower < hi => (p.lower, hi),
+                        3 | 4 if lo < p.upper => (lo, p.upper),
+                        _ => (lo, hi),
+                    };
                     let la = liq_accounts(actor, &pi.keys, pk, p);
                     let mut starts = vec![ta_start(lo, pi.keys.tick_spacing)];
                     let su = ta_start(hi, pi.keys.tick_spacing);
